@@ -354,13 +354,67 @@ def literal_shard(args):
     return st
 
 
+# ---- space 4: quotes inside documentation lines are not syntax (tree level) --------------------------------------------
+DOCTEXTS = ["see 'read_deck' and don't skip it's notes", 'say "hi" to "them" twice', "a 'b' \"c\" 'd' e", "it's", "x = 'y'; call z('w') ! not a comment",
+            "50% of 'all' cases & more", "plain words only"]
+DOCPOS = ["file-header", "module-doc", "after-use", "after-implicit", "variable-doc", "after-contains", "proc-doc", "after-declaration-in-proc", "after-exec",
+          "after-end-sub", "after-end-module", "predoc-variable", "predoc-proc"]
+
+
+def docquote_shard(args):
+    from mc import fordrun
+
+    pos_list = args
+    st = Stats()
+    for pos in pos_list:
+        for ti, text in enumerate(DOCTEXTS):
+            for ti2, text2 in enumerate(DOCTEXTS[:3]):
+                d = [f"!! TRQ1 {text}", f"!! TRQ2 {text2}"]
+                pre = [f"!> TRQ1 {text}", f"!> TRQ2 {text2}"]
+                at = lambda p: d if pos == p else []  # noqa
+                L = (at("file-header") + ["module m"] + at("module-doc") + ["  use iso_fortran_env"] + at("after-use") + ["  implicit none"] + at("after-implicit")
+                     + (pre if pos == "predoc-variable" else []) + ["  integer :: v"] + at("variable-doc") + ["contains"] + at("after-contains")
+                     + (pre if pos == "predoc-proc" else []) + ["  subroutine p(a)"] + at("proc-doc") + ["    integer :: a"] + at("after-declaration-in-proc")
+                     + ["    a = 1"] + at("after-exec") + ["  end subroutine p"] + at("after-end-sub") + ["end module m"] + at("after-end-module"))
+                src = "\n".join(L) + "\n"
+                r = fordrun.build_fast({"src/m.f90": src}, dict(display=["public", "private", "protected"], proc_internals=True))
+                st.evaluations += 1
+                st.transitions += 1
+                site = "doc-quotes/" + pos
+                inp = {"lines": L, "shape": f"docquote:{pos}:{ti}:{ti2}"}
+                feats = {"features": "doc-quotes", "complete": True, "position": pos}
+                st.nontrivial.add(core.digest([pos, ti, ti2]))
+                if r.error is not None or not r.project or not r.project.modules or "ERROR in file" in r.log or "Error parsing" in r.log:
+                    st.violation("exception-on-wellformed-input", site, feats, inp, repr(r.error) + r.log[-200:], "parses")
+                    st.stratum(site, 1)
+                    continue
+                docs = []
+                m = r.project.modules[0]
+                ents = [r.project.files[0], m] + list(m.variables) + list(m.subroutines) + [a for p_ in m.subroutines for a in p_.args]
+                for e in ents:
+                    for line in getattr(e, "doc_list", []) or []:
+                        if "TRQ" in line:
+                            docs.append((type(e).__name__, line.strip()))
+                got = sorted(l for _, l in docs)
+                want = sorted([f"TRQ1 {text}", f"TRQ2 {text2}"])
+                st.states.add(core.digest([pos, [t for t, _ in docs]]))
+                # a documentation line may be attached to whatever entity FORD's rules say, or to none; its text is never altered
+                altered = [l for l in got if l not in want]
+                if altered:
+                    st.violation("doc-lines-differ", site, feats, inp, got, want)
+                    st.stratum(site, 1)
+                else:
+                    st.stratum(site, 0)
+    return st
+
+
 def replay(path):
     import json
 
     core.use_repo()
     rec = json.loads(open(path).read())
     st = Stats()
-    if rec["site"] == "literal-masking":
+    if rec["site"].startswith(("literal-masking", "doc-quotes")):
         print("\n".join(rec["input"]["lines"]))
         print("observed", rec["observed"], "expected", rec["expected"])
         return 1
@@ -385,6 +439,8 @@ def main(tier, replay_path=None):
         total.merge(st)
     for st in core.pmap(literal_shard, [(k, tier == "thorough") for k in range(len(LITS))]):
         total.merge(st)
+    for st in core.pmap(docquote_shard, [[p] for p in DOCPOS]):
+        total.merge(st)
     return core.finish(
         PROP,
         tier,
@@ -395,7 +451,8 @@ def main(tier, replay_path=None):
             f"space1: BFS over all sequences of <= {L} physical lines from a {len(LINES)}-shape alphabet, "
             "prefix expanded only when (FortranReader locals+fields, reference lexer state, output lag) with ids "
             f"renamed is new; space2: all sequences of <= {T} tokens over {len(TOKENS)} tokens; space3: all ordered pairs (thorough: triples) of {len(LITS)} "
-            "literals with syntax-like content in one declaration + PRINT + CALL, observed in the entity tree. distinct_nontrivial = "
+            "literals with syntax-like content in one declaration + PRINT + CALL, observed in the entity tree; "
+            f"space4: {len(DOCTEXTS)} x 3 documentation texts holding quotes at {len(DOCPOS)} positions of a module (never altered, wherever attached). distinct_nontrivial = "
             "distinct expected outputs (ids renamed) of well-formed complete inputs"
         ),
         assumptions=[
